@@ -96,7 +96,9 @@ def model_request(h: HistRec):
 
 def correspond(ctx: fw.Ctx, hists: list[HistRec], max_report=5):
     """Model vs implementation on every history; disagreements are tie breaks."""
-    todo = [h for h in hists if h.doc0 is not None and h.ops]
+    # documents whose edit target is reached through a let-bound name are outside the edit model
+    # (Doc has no notion of it): the oracles judge them, the correspondence leaves them out
+    todo = [h for h in hists if h.doc0 is not None and h.ops and not h.info.get("nomodel")]
     replies = ctx.driver.ask_many([model_request(h) for h in todo])
     bad = 0
     for h, rep in zip(todo, replies):
